@@ -311,6 +311,8 @@ pub fn comment_insertions() -> Vec<String> {
             if matches!(tok, koto_lexer::Token::NewLine) {
                 // end-of-line comment
                 out.push(format!("{} # eol{}", &b[..*pos], &b[*pos..]));
+                out.push(format!("{}# adjacent{}", &b[..*pos], &b[*pos..]));
+                out.push(format!("{}#- adjacent -#{}", &b[..*pos], &b[*pos..]));
                 out.push(format!("{} #- inline at eol -#{}", &b[..*pos], &b[*pos..]));
             } else if !matches!(tok, koto_lexer::Token::StringLiteral | koto_lexer::Token::StringEnd) {
                 out.push(format!("{}#- c -# {}", &b[..*pos], &b[*pos..]));
@@ -327,6 +329,10 @@ pub fn comment_insertions() -> Vec<String> {
             };
             out.push(with_skip(line));
             out.push(with_skip(&format!("{line} # trailing")));
+            // comments directly adjacent to the code (no blank in between)
+            out.push(with_skip(&format!("{line}# adjacent")));
+            out.push(with_skip(&format!("{line}#- adjacent -#")));
+            out.push(with_skip(&format!("{line}#- adjacent -# # trailing")));
             for (k, c) in line.char_indices() {
                 if c == ' ' && k > indent.len() {
                     out.push(with_skip(&format!("{} #- unit -# {} # trailing", &line[..k], &line[k + 1..])));
